@@ -91,6 +91,14 @@ func UnregisterHost(host string) {
 
 // RegisterTLSHost serves HTTPS with the given certificate at addr ("name:443") in the simulated network.
 func RegisterTLSHost(addr string, cert tls.Certificate) {
+	RegisterTLSHandler(addr, cert, http.HandlerFunc(func(w http.ResponseWriter, r *http.Request) {
+		w.Header().Set("Connection", "close")
+		_, _ = w.Write([]byte("ok"))
+	}))
+}
+
+// RegisterTLSHandler serves h over HTTPS at addr ("name:443") in the simulated network.
+func RegisterTLSHandler(addr string, cert tls.Certificate, h http.Handler) {
 	initNet()
 	hostsMu.Lock()
 	defer hostsMu.Unlock()
@@ -102,7 +110,7 @@ func RegisterTLSHost(addr string, cert tls.Certificate) {
 	srv := &http.Server{
 		Handler: http.HandlerFunc(func(w http.ResponseWriter, r *http.Request) {
 			w.Header().Set("Connection", "close")
-			_, _ = w.Write([]byte("ok"))
+			h.ServeHTTP(w, r)
 		}),
 		TLSConfig:         &tls.Config{Certificates: []tls.Certificate{cert}},
 		ReadHeaderTimeout: 30 * time.Second,
